@@ -40,6 +40,9 @@ var goRewrites = map[string][]string{
 var mapOrderRewrites = map[string]map[string][]string{
 	"bcs/ledger/xledger/tx/tx.go":      {"SortUnconfirmedTx": {"txMap"}},
 	"bcs/ledger/xledger/tx/topsort.go": {"TopSortDFS": {"g"}},
+	// order-independent in the unchanged code; owned so that a change that makes
+	// the outcome depend on it shows as a deterministic violation, not as noise
+	"bcs/ledger/xledger/state/state.go": {"processUnconfirmTxs": {"unconfirmTxMap"}, "RollBackUnconfirmedTx": {"unconfirmTxMap"}},
 }
 
 // syncRewrites: package dir -> functions excluded from the rewrite.
